@@ -43,7 +43,7 @@ func init() {
 		},
 		Cases: func(tier string, seed uint64) int {
 			if tier == "thorough" {
-				return 3000000
+				return 10000000
 			}
 			return 60000
 		},
